@@ -18,6 +18,24 @@ def await_receiver(e):
         e.log('X5', '`receiver.await` rendered as `receiver.resolved().await` (x%d)' % k)
 
 
+def listing_chain(e):
+    """X11 + X8: `.as_ref().map(ActivePeers::peers)` -> `.map(|p| p.peers())` (the stand-in handle is a `&mut`, not an Arc: no `as_ref`; the function path is
+    eta-expanded) and `.unwrap_or_default()` -> `.unwrap_or(Vec::new())` (the default of a Vec is the empty Vec)"""
+    import re
+    ANN = {'peers': '|p: &mut ActivePeers| -> (v: Vec<PeerId>) ensures v@.to_set() =~= old(p).0.connections@.dom(), v@.no_duplicates(), final(p).0 == old(p).0, final(p).1@ == old(p).1@ + 1 { p.peers() }',
+           'subscribe': '|p: &mut ActivePeers| -> (v: (Receiver, Vec<PeerId>)) ensures v.0.start@ == old(p).0.peer_event_sender.log@.len(), v.1@.to_set() =~= old(p).0.connections@.dom(), v.1@.no_duplicates(), final(p).0 == old(p).0, final(p).1@ == old(p).1@ + 1 { p.subscribe() }'}
+    k1 = 0
+    def _ann(m):
+        nonlocal k1
+        k1 += 1
+        return '.map(%s)' % ANN.get(m.group(1), '|p| p.%s()' % m.group(1))
+    t2 = re.sub(r'\.as_ref\(\)\s*\.map\(\s*ActivePeers::(\w+)\s*\)', _ann, e.text)
+    t2, k2 = re.subn(r'\.unwrap_or_default\(\)', '.unwrap_or(Vec::new())', t2)
+    if k1 or k2:
+        e.text = t2
+        e.log('X11', '`.as_ref().map(ActivePeers::peers)` eta-expanded on the `&mut` handle (x%d); `.unwrap_or_default()` -> `.unwrap_or(Vec::new())` (x%d)' % (k1, k2))
+
+
 def eta_into(e):
     import re
     t3, k3 = re.subn(r'\|_\|', '|_unused|', e.text)
@@ -114,6 +132,12 @@ def build(C):
         !old(self).connection_manager_handle.closed ==> final(self).connection_manager_handle.delivered@.len() == old(self).connection_manager_handle.delivered@.len() + 1
             && final(self).connection_manager_handle.delivered@.last() is Shutdown, // @OBL NetworkInner::shutdown::request_always_reaches_the_manager [C08] on a live network the shutdown request ALWAYS reaches the connection manager, whatever else is queued in its mailbox: the call waits for room instead of giving up
 ''')
+    t += C.fn(NET, 'impl NetworkInner :: fn peers', 'NetworkInner::peers', ['C04', 'C08'], ret='r', sig_rewrites=[('&self', '&mut self')], transforms=[listing_chain], spec='''
+    ensures
+        old(self).active_peers.live ==> r@.to_set() =~= old(self).active_peers.set.0.connections@.dom() && r@.no_duplicates(), // @OBL NetworkInner::peers::is_the_connected_set [C04,C09] the listing a network hands out is exactly the set of peers with a registered connection, each once
+        !old(self).active_peers.live ==> r@.len() == 0, // @OBL NetworkInner::peers::closed_network_lists_nobody [C08] a network that has shut down lists no peers
+        final(self).active_peers.set.0 == old(self).active_peers.set.0, // @OBL NetworkInner::peers::read_only [C04] listing changes nothing
+''')
     t += C.fn(NET, 'impl NetworkInner :: fn is_closed', 'NetworkInner::is_closed', ['C08'], ret='r', spec='''
     ensures
         r == self.connection_manager_handle.closed, // @OBL NetworkInner::is_closed::mailbox_closed [C08] a network reports closed exactly when its connection manager is gone
@@ -137,6 +161,29 @@ def build(C):
         !old(self).0.connection_manager_handle.closed ==> final(self).0.connection_manager_handle.delivered@.len() == old(self).0.connection_manager_handle.delivered@.len() + 1
             && final(self).0.connection_manager_handle.delivered@.last() is ConnectRequest && final(self).0.connection_manager_handle.delivered@.last()->ConnectRequest_0 == addr
             && final(self).0.connection_manager_handle.delivered@.last()->ConnectRequest_1 == Some(peer_id), // @OBL Network::connect_with_peer_id::asks_for_exactly_that_identity [C03] a dial that names the identity it expects asks the connection manager for exactly that identity at exactly that address (the manager pins the TLS verifier on it: ConnectionManager::dial_peer_task, Endpoint::connect_with_expected_peer_id)
+''')
+    t += C.fn(NET, 'impl Network :: fn peers', 'Network::peers', ['C04', 'C08'], ret='r', sig_rewrites=[('&self', '&mut self')], spec='''
+    ensures
+        old(self).0.active_peers.live ==> r@.to_set() =~= old(self).0.active_peers.set.0.connections@.dom() && r@.no_duplicates(), // @OBL Network::peers::is_the_connected_set [C04,C05,C09] the public connected-peer listing is exactly the set of peers with a registered connection: no duplicates, nobody else, nobody missing
+        !old(self).0.active_peers.live ==> r@.len() == 0, // @OBL Network::peers::closed_network_lists_nobody [C08] after shutdown the network lists no peers
+''')
+    t += C.fn(NET, 'impl Network :: fn subscribe', 'Network::subscribe', ['C04', 'C08'], ret='r', sig_rewrites=[('&self', '&mut self')], transforms=[listing_chain, eta_into],
+              rewrites=[dict(rule='X5', pattern='broadcast::Receiver<PeerEvent>', repl='Receiver', optional=True)], spec='''
+    ensures
+        old(self).0.active_peers.live ==> r is Ok && r->Ok_0.0.start@ == old(self).0.active_peers.set.0.peer_event_sender.log@.len()
+            && r->Ok_0.1@.to_set() =~= old(self).0.active_peers.set.0.connections@.dom() && r->Ok_0.1@.no_duplicates(), // @OBL Network::subscribe::snapshot_and_stream_from_one_instant [C04] a subscriber gets the listing of one instant together with a receiver that sees exactly the events after that instant: the event stream is an exact change log of the listing it was handed
+        old(self).0.active_peers.live ==> final(self).0.active_peers.set.1@ == old(self).0.active_peers.set.1@ + 1, // @OBL Network::subscribe::one_critical_section [C04] ... taken in ONE critical section
+        !old(self).0.active_peers.live ==> r is Err, // @OBL Network::subscribe::closed_network_errors [C08] subscribing to a network that has shut down fails
+''')
+    t += C.fn(NET, 'impl Network :: fn peer', 'Network::peer', ['C09', 'C08', 'C04'], ret='r', sig_rewrites=[('&self', '&mut self')], spec='''
+    ensures
+        r is Some <==> (old(self).0.active_peers.live && old(self).0.active_peers.set.0.connections@.contains_key(peer_id)), // @OBL Network::peer::listed_iff_connected [C09,C08] the public call hands out a peer handle iff that peer is connected right now
+        r is Some ==> r->Some_0.connection == old(self).0.active_peers.set.0.connections@[peer_id] && r->Some_0.layer == old(self).0.outbound_request_layer, // @OBL Network::peer::registered_connection_and_network_layer [C04,C11] over the one registered connection of that peer, through the network's outbound layer stack
+''')
+    t += C.fn(NET, 'impl Network :: fn rpc', 'Network::rpc', ['C09', 'C08'], ret='r', sig_rewrites=[('&self', '&mut self')], spec='''
+    ensures
+        !(old(self).0.active_peers.live && old(self).0.active_peers.set.0.connections@.contains_key(peer)) ==> r is Err, // @OBL Network::rpc::fails_when_not_connected [C09,C08] an RPC to a peer that is not connected (after a disconnect, after shutdown) fails instead of being sent
+        final(self).0.active_peers.set.0 == old(self).0.active_peers.set.0, // @OBL Network::rpc::leaves_the_connected_set_alone [C04,C05,C09] sending a request never changes the connected set
 ''')
     t += C.fn(NET, 'impl Network :: fn disconnect', 'Network::disconnect', ['C09', 'C08'], ret='r', sig_rewrites=[('&self', '&mut self')], spec='''
     ensures
